@@ -105,6 +105,7 @@ class Run:
         self.distinct_nontrivial = 0
         self.drift = 0
         self.drift_ops = {}
+        self.generated_histories = 0
         self.undecided = 0
 
     def cleanup(self):
@@ -134,6 +135,26 @@ class Run:
         if not tlc_ok(out) or not os.path.exists(os.path.join(d, "domainS.ndjson")):
             raise Infra("domain export failed:\n" + out[-3000:])
 
+    def export_histories(self):
+        """Spec -> code: TLC simulates Gen_Hist (ErrDecimal / Context histories with the state the layer-2
+        transcriptions predict after every step) and the behaviours are written to histS.ndjson for the
+        'genhist' driver to replay on real objects."""
+        d = os.path.join(self.work, "gen_hist")
+        copy_spec(d)
+        per_worker = 400 if self.tier == "quick" else 6000
+        rc, out = run_tlc(d, "Gen_Hist", workers=4, heap="3g", timeout=1800,
+                          extra=["-simulate", "num=%d" % per_worker, "-depth", "11", "-seed", str(self.seed)])
+        hs = []
+        for m in re.finditer(r'<<"HIST", "((?:[^"\\]|\\.)*)">>', out):
+            hs.append(json.loads(json.loads('"' + m.group(1) + '"')))
+        if not hs or "Error:" in out:
+            raise Infra("history generation failed:\n" + out[-3000:])
+        with open(os.path.join(self.domain, "histS.ndjson"), "w") as f:
+            for h in hs:
+                f.write(json.dumps(h, separators=(",", ":")) + "\n")
+        shutil.rmtree(d, ignore_errors=True)
+        self.generated_histories = len(hs)
+
     # -- spec-only model checking -------------------------------------------
     def model_check(self, module, cfg=None, workers=16, heap="6g", timeout=3600, extra=(), expect_violation=False):
         d = os.path.join(self.work, "mc_" + (cfg or module).replace(".cfg", ""))
@@ -162,6 +183,8 @@ class Run:
         if ":" in driver:                       # "vectors:sqrt,cbrt" = the vectors driver restricted to these operations
             driver, sel = driver.split(":", 1)
         outdir = outdir or os.path.join(self.work, "tr_" + driver)
+        if driver == "genhist" and not os.path.exists(os.path.join(self.domain, "histS.ndjson")):
+            self.export_histories()
         e = dict(os.environ, VERIF_DOMAIN_DIR=self.domain, VERIF_REPO=REPO)
         if sel:
             e["VERIF_VEC_OPS"] = sel
@@ -324,6 +347,7 @@ def write_evidence(run, level, violations, rule, extra=None, assumptions=None, n
         "exhaustive": False,
         "alg_model_drift": run.drift,
         "alg_model_drift_by_op": run.drift_ops,
+        "tlc_generated_histories_replayed": run.generated_histories,
         "undecided_events": run.undecided,
     }
     if extra:
